@@ -198,13 +198,15 @@ def make_operand(d, cls, npol):
         v = int(rs.randint(-5, 6))
         return v, np.asarray(v), None
     if k == "pyfloat":
-        v = float(rs.randint(-20, 21) / 4)
+        # dyadic values (exact in any float width) and arbitrary ones (0.1, 1/3, pi, 1e-3, 1e-9 ...)
+        v = float(rs.randint(-20, 21) / 4) if rs.randint(0, 2) else float(rs.choice([0.1, 0.3, 1 / 3, np.pi, 1e-3, 2.7, 1e-9, 12345.678, 0.0]) * rs.choice([-1, 1]))
         return v, np.asarray(v), None
     if k == "pycomplex":
-        v = complex(rs.randint(-8, 9) / 4, rs.randint(-8, 9) / 4)
+        v = complex(rs.randint(-8, 9) / 4, rs.randint(-8, 9) / 4) if rs.randint(0, 2) else complex(rs.choice([0.1, 1 / 3, 1e-3]), rs.choice([0.3, np.pi, 0.0, 1e-9]))
         return v, np.asarray(v), None
     if k == "npscalar":
-        v = [np.int64(rs.randint(-5, 6)), np.float64(rs.randint(-20, 21) / 4), np.complex128(complex(rs.randint(-8, 9), rs.randint(-8, 9)))][rs.randint(0, 3)]
+        v = [np.int64(rs.randint(-5, 6)), np.float64(rs.randint(-20, 21) / 4), np.complex128(complex(rs.randint(-8, 9), rs.randint(-8, 9))),
+             np.float64(rs.choice([0.1, 1 / 3, np.pi, 1e-3])), np.float32(0.1), np.int32(3), np.complex64(0.1 + 0.3j)][rs.randint(0, 7)]
         return v, np.asarray(v), None
     L = d["L"]
     if k == "bits":
